@@ -33,6 +33,12 @@ STRINGS = ["a", "b", "ab", "x y", " lead", "trail ", "q\"uote", "it's", "line1\n
 STRINGS += ["\r", "a\r\nb", u"a\x85b", u"a\u2028b", u"a\u2029b", " ", "None", "nan", u"\ufeffx", u"e\u0301"]
 NAMES = ["a", "b", "ab", "c", "name one", u"näme", "x\"y"]
 TYPES = ["cell", "analysis", "setup/daq", "custom", "n.s.", "mytype", "subject", "recording", u"tüp"]
+# (round 6) types next to the keys of the sub-class maps: sub-paths and parents of mapped types, other case,
+# two types of one class, a type that only a custom map can know
+TYPES += ["setup", "hardware/daq", "analysis/psth", "Cell", "person", "datacite/creator/affiliation",
+          "datacite/contributor/affiliation", "setup/rig"]
+CLASS_NAMES = ["Custom", "MyCell", "Mine", "Unspecified", u"T\u00fcp", "Cell", "Setup", "A1", "RecordingRig",
+               "Section", "Property"]
 URLS = ["http://x.org/t.xml", "https://terms.example/v1/t.xml", "http://x.org/other.xml"]
 FLOATS = [0.5, 0.30000000000000004, 1.5, 1e20, 1e-7, 123456.789, 2.0, -0.1, 0.1 + 0.7, 5e-324,
           1.7976931348623157e308, 3.141592653589793, 1e16, 0.0, -0.0, 100.0, 0.25, 1234567.0, 12345678.0]
@@ -324,7 +330,8 @@ class C10(fw.Check):
     obligations = ["C10." + t for t in [
         "rdf_tables_wellformed", "reader_accepts_rdf_keys", "formats_supported", "export_shape",
         "export_one_hub", "export_hub_links_every_document", "export_object_nodes",
-        "export_property_node", "export_values_ordered", "export_section_typed", "objects_perm",
+        "export_property_node", "export_values_ordered", "export_section_typed", "writer_keeps_switch",
+        "export_subclassing_off", "export_off_with_custom_map", "objects_perm",
         "rdf_roundtrip", "rdf_roundtrip_partial", "import_perm_invariant",
         "uncertainty_imported_as_text", "rdf_roundtrip_counterexample",
         "empty_attribute_dropped_counterexample"]]
@@ -359,7 +366,11 @@ class C10(fw.Check):
             "or edited export of the same documents, other documents, an empty export, the same graph once "
             "more, a second reader in between, a new reader afterwards); an export that is refused while it "
             "runs (unresolvable link) before the next export of the same writer; chains of 9-100 nested "
-            "Sections and 10-21 siblings; objects with cardinalities. Non-trivial = at least one Section and one Property with values (history: "
+            "Sections and 10-21 siblings; objects with cardinalities. Round 6 adds the writer configuration as a "
+            "dimension of its own: switch on/off x no map / custom map (as often off as on; keys drawn from the "
+            "types of the documents, from the default map, next to them; a dict / OrderedDict / None / {}) x the "
+            "switch set through the public attribute after the writer was created (one-shot) or between the "
+            "exports of one writer (histories); types on and next to the keys of both maps. Non-trivial = at least one Section and one Property with values (history: "
             "at least one edit took effect); distinct = distinct canonical JSON of the case.")
     quick_n = 400
     thorough_n = 7000
@@ -448,28 +459,83 @@ class C10(fw.Check):
                 "origin": self.opt(rng, ["file.xml"], 0.1),
                 "secs": [self.gen_sec(rng, names[i], 2 if small else 1) for i in range(nsecs)]}
 
+    # -- generation, round 6: the writer configuration as a dimension of its own --------------
+    @staticmethod
+    def spec_types(docs):
+        out = []
+
+        def walk(s):
+            out.append(s.get("type", "n.s."))
+            for c in s.get("subs", []):
+                walk(c)
+        for d in docs:
+            for s in d.get("secs", []):
+                walk(s)
+        return out
+
+    def gen_custom(self, rng, docs):
+        """a custom map seen from the documents it is used on: keys that are types of their Sections
+        (mapped by the default map or not), parents / sub-paths / other spellings of such types, types
+        that do not occur; one to three entries, now and then two types of one class"""
+        present = sorted(set(self.spec_types(docs))) or ["cell"]
+        near = []
+        for t in present:
+            near += [t.split("/")[0], t + "/sub", t.upper(), t + " "]
+        pool = present * 4 + ["cell", "analysis", "setup", "recording"] + near + ["no/such/type"]
+        names = list(CLASS_NAMES)
+        rng.shuffle(names)
+        if rng.random() < 0.2:
+            names[1] = names[0]
+        keys = []
+        for _ in range(rng.choice([1, 1, 2, 3])):
+            k = rng.choice(pool)
+            if k not in keys:
+                keys.append(k)
+        return dict((k, names[i]) for i, k in enumerate(keys))
+
+    def gen_config(self, rng, mode, docs, old=None):
+        """-> the configuration fields of a case. `subclassing` is the value of the switch when the export
+        runs; `flag_set` (now and then): the writer was created with another (or the same) value and the
+        public attribute `rdf_subclassing` was set afterwards; `custom_as`: how the map is handed over"""
+        custom = {}
+        if mode.startswith("custom"):
+            custom = rng.choice(old) if (old and rng.random() < 0.25) else self.gen_custom(rng, docs)
+        cfg = {"subclassing": mode in ("on", "custom"), "custom": custom}
+        if rng.random() < 0.15:
+            other = rng.random() < 0.75
+            cfg["flag_set"] = {"ctor": (not cfg["subclassing"]) if other else cfg["subclassing"]}
+        if custom:
+            cfg["custom_as"] = rng.choice(["dict", "dict", "dict", "ordered"])
+        else:
+            cfg["custom_as"] = rng.choice(["absent", "absent", "none", "empty"])
+        return cfg
+
     def generate(self, tier, rng):
         n = self.quick_n if tier == "quick" else self.thorough_n
         cases = []
         for i in range(n):
             ndocs = rng.choice([1, 1, 1, 2, 3])
-            mode = rng.choice(["on", "off", "custom"])
-            custom = {}
-            if mode == "custom":
-                custom = rng.choice([{"custom": "Custom"}, {"cell": "MyCell", "mytype": "Mine"},
-                                     {"n.s.": "Unspecified"}])
+            # (round 6) the switch and the custom map are independent: off + custom map as often as the rest
+            mode = rng.choice(["on", "off", "custom", "custom-off"])
             entry = rng.choice(["string", "string", "file", "parser", "reuse"])
             if entry == "parser":
-                ndocs, mode, custom = 1, "on", {}
-            cases.append({"stream": "rt", "docs": [self.gen_doc(rng) for _ in range(ndocs)],
-                          "fmt": FORMATS[i % len(FORMATS)], "subclassing": mode != "off", "custom": custom,
-                          "entry": entry})
+                ndocs, mode = 1, "on"
+            docs = [self.gen_doc(rng) for _ in range(ndocs)]
+            case = {"stream": "rt", "docs": docs, "fmt": FORMATS[i % len(FORMATS)], "entry": entry}
+            case.update(self.gen_config(rng, mode, docs, old=[{"custom": "Custom"}, {"cell": "MyCell", "mytype": "Mine"},
+                                                              {"n.s.": "Unspecified"}]))
+            cases.append(case)
         cases += self.generate_round2(tier, rng)
         cases += self.generate_round3(tier, rng)
         for fmt in ["xml", "turtle", "nt", "json-ld", "n3", "pretty-xml", "trig", "bogus", "", "XML", "rdf"]:
             cases.append({"stream": "format", "fmt": fmt})
         for custom in [{"a": "B C"}, {"a": "B", "c": "D\tE"}, {"a": "B\n"}, {"cell": "X"}, {"k": u"A B"}]:
             cases.append({"stream": "custom", "custom": custom})
+        # (round 6) module-level state after a writer with the switch off (with and without a custom map):
+        # the next writer starts from the declared sub-classes; whether a writer that is switched off
+        # looks at its custom map at all is not judged (oracle-only)
+        for custom in [{"cell": "X"}, {}, {"a": "B C"}]:
+            cases.append({"stream": "custom", "custom": custom, "subclassing": False})
         return cases
 
     # -- generation, round 2: entry points, object histories, process state -----
@@ -484,17 +550,19 @@ class C10(fw.Check):
             entry = self.MORE_ENTRIES[i % len(self.MORE_ENTRIES)]
             ndocs = rng.choice([1, 1, 2, 0])
             mode = rng.choice(["on", "off", "custom", "custom-off"])
-            custom = {}
-            if mode.startswith("custom"):
-                custom = rng.choice([{"custom": "Custom"}, {"cell": "MyCell", "mytype": "Mine"},
-                                     {"n.s.": "Unspecified"}, {u"tüp": u"Tüp"}])
             if entry == "save":
-                ndocs, mode, custom = 1, "on", {}
+                ndocs, mode = 1, "on"
             if entry == "single":
                 ndocs = 1
-            cases.append({"stream": "rt", "docs": [self.gen_doc(rng, small=quick) for _ in range(ndocs)],
-                          "fmt": FORMATS[(i // len(self.MORE_ENTRIES) + i) % len(FORMATS)],
-                          "subclassing": mode in ("on", "custom"), "custom": custom, "entry": entry})
+            docs = [self.gen_doc(rng, small=quick) for _ in range(ndocs)]
+            case = {"stream": "rt", "docs": docs, "entry": entry,
+                    "fmt": FORMATS[(i // len(self.MORE_ENTRIES) + i) % len(FORMATS)]}
+            case.update(self.gen_config(rng, mode, docs, old=[
+                {"custom": "Custom"}, {"cell": "MyCell", "mytype": "Mine"}, {"n.s.": "Unspecified"},
+                {u"tüp": u"Tüp"}]))
+            if entry == "save":
+                case.pop("flag_set", None)
+            cases.append(case)
         # (b) one writer, several exports, the documents change in between
         kinds = ["grow", "grow", "edit", "grow", "link", "grow", "edit", "grow", "link"]
         for i in range(36 if quick else 630):
@@ -552,8 +620,12 @@ class C10(fw.Check):
             rng.shuffle(names)
             d["secs"] = [self.gen_sec(rng, names[i], 2) for i in range(rng.choice([1, 2, 2, 3]))]
             docs.append(d)
-        mode = rng.choice(["on", "on", "off", "custom"])
-        custom = rng.choice([{"custom": "Custom"}, {"cell": "MyCell"}]) if mode == "custom" else {}
+        # (round 6) the custom map also with the switch off, keys drawn from the types of the documents
+        mode = rng.choice(["on", "on", "off", "custom", "custom-off"])
+        custom = {}
+        if mode.startswith("custom"):
+            custom = rng.choice([{"custom": "Custom"}, {"cell": "MyCell"}, self.gen_custom(rng, docs),
+                                 self.gen_custom(rng, docs)])
         links = []
         if kind == "link":
             links = [{"at": self.gen_path(rng), "to": self.gen_path(rng)} for _ in range(rng.choice([1, 1, 2]))]
@@ -567,9 +639,12 @@ class C10(fw.Check):
             steps.append({"edits": edits, "fmt": fmt if rng.random() < 0.6 else rng.choice(FORMATS),
                           "entry": rng.choice(["string", "string", "file", "convert", "str"]),
                           "refused": rng.choice([None, None, None, "badfmt", "nodir", "badlink"]),
-                          "refused_at": self.gen_path(rng)})
-        return {"stream": "hist", "kind": kind, "docs": docs, "links": links, "subclassing": mode != "off",
-                "custom": custom, "steps": steps}
+                          "refused_at": self.gen_path(rng),
+                          # (round 6) the switch is a public attribute of the writer: it is turned off / on
+                          # (or set to what it is) before this step; the export follows its value at that time
+                          "set_flag": rng.choice([None, None, None, True, False])})
+        return {"stream": "hist", "kind": kind, "docs": docs, "links": links,
+                "subclassing": mode in ("on", "custom"), "custom": custom, "steps": steps}
 
     # -- generation, round 3: histories of ONE reader, refusals below the top level, deep / wide trees --
     DAMAGES = ["noname", "noname", "noname", "dangling", "dangling", "cycle", "baddtype", "nohub", "garbage"]
@@ -589,8 +664,9 @@ class C10(fw.Check):
                              for i in range(rng.choice([1, 1, 2]))]
                 docs.append(d)
             return docs
-        mode = rng.choice(["on", "on", "off", "custom"])
-        custom = rng.choice([{"custom": "Custom"}, {"cell": "MyCell"}]) if mode == "custom" else {}
+        mode = rng.choice(["on", "on", "off", "custom", "custom-off"])
+        custom = rng.choice([{"custom": "Custom"}, {"cell": "MyCell"}, {"n.s.": "Section", "cell": "Property"}]) \
+            if mode.startswith("custom") else {}
         whats = ["good", "damaged", "damaged", "damaged", "damaged", "edited", "other", "empty", "again"]
         nsteps = rng.choice([2, 2, 3, 3, 4])
         steps = []
@@ -609,7 +685,7 @@ class C10(fw.Check):
                                for _ in range(rng.choice([1, 2, 3]))]
             steps.append(st)
         return {"stream": "rhist", "docs": some_docs(rng.choice([1, 1, 2, 3])), "other": some_docs(rng.choice([1, 2])),
-                "subclassing": mode != "off", "custom": custom,
+                "subclassing": mode in ("on", "custom"), "custom": custom,
                 "reader": rng.choice(["rdf", "rdf", "rdf", "ctor", "oreader", "oreader:warn"]),
                 "writer": rng.choice(["fresh", "fresh", "owriter"]),
                 "fresh_after": rng.random() < 0.5, "steps": steps}
@@ -659,9 +735,49 @@ class C10(fw.Check):
             else:
                 doc = self.gen_deep_doc(rng, int(shape[5:]))
             docs = [doc] + ([self.gen_doc(rng, small=True)] if rng.random() < 0.3 else [])
-            cases.append({"stream": "rt", "docs": docs, "fmt": FORMATS[(i + i // 12) % len(FORMATS)],
-                          "subclassing": rng.random() < 0.7, "custom": {},
-                          "entry": rng.choice(["string", "file", "ctor"])})
+            case = {"stream": "rt", "docs": docs, "fmt": FORMATS[(i + i // 12) % len(FORMATS)],
+                    "entry": rng.choice(["string", "file", "ctor"])}
+            case.update(self.gen_config(rng, rng.choice(["on", "on", "off", "custom", "custom-off"]), docs))
+            cases.append(case)
+        cases += self.generate_round6(tier, rng)
+        return cases
+
+    # -- generation, round 6: every combination of switch x map x later change of the switch, on documents
+    #    whose Section types sit on and next to the keys of both maps ------------------------------------
+    def generate_round6(self, tier, rng):
+        quick = tier == "quick"
+        cases = []
+        combos = [(flag, cust, ctor) for flag in (True, False) for cust in ("none", "own", "default", "miss", "both")
+                  for ctor in (None, None, True, False)]
+        rng.shuffle(combos)
+        for i in range(14 if quick else 240):
+            flag, cust, ctor = combos[i % len(combos)]
+            doc = self.gen_doc(rng, small=True)
+            names = list(NAMES)
+            rng.shuffle(names)
+            doc["secs"] = [self.gen_sec(rng, names[k], 2) for k in range(rng.choice([2, 3]))]
+            # a type of the default map, one only a custom map knows, an unmapped one - at the top and nested
+            doc["secs"][0]["type"] = rng.choice(["cell", "setup", "analysis/psth", "recording"])
+            doc["secs"][1]["type"] = rng.choice(["setup/rig", "mytype", "custom"])
+            doc["secs"][0]["subs"] = doc["secs"][0]["subs"][:2] + [
+                {"name": "inner", "type": doc["secs"][1]["type"], "definition": None, "reference": None,
+                 "repository": None, "props": [self.gen_prop(rng, "p")], "subs": []}]
+            docs = [doc] + ([self.gen_doc(rng, small=True)] if rng.random() < 0.3 else [])
+            custom = {}
+            if cust in ("own", "both"):
+                custom[doc["secs"][1]["type"]] = rng.choice(CLASS_NAMES)
+            if cust in ("default", "both"):
+                custom[doc["secs"][0]["type"]] = rng.choice(CLASS_NAMES)
+            if cust == "miss":
+                custom = {doc["secs"][1]["type"] + "/x": "Custom", "no/such/type": "Mine"}
+            case = {"stream": "rt", "docs": docs, "fmt": FORMATS[i % len(FORMATS)], "subclassing": flag,
+                    "custom": custom, "custom_as": "dict" if custom else "absent",
+                    "entry": rng.choice(["string", "string", "file", "single", "reuse", "ctor"])}
+            if case["entry"] == "single":
+                case["docs"] = docs[:1]
+            if ctor is not None:
+                case["flag_set"] = {"ctor": ctor}
+            cases.append(case)
         return cases
 
     # -- implementation ------------------------------------------------------
@@ -699,7 +815,10 @@ class C10(fw.Check):
         import odml
         from odml.tools.rdf_converter import RDFWriter
         try:
-            w = RDFWriter([odml.Document()], custom_subclasses=dict(case["custom"]))
+            kw = {"custom_subclasses": dict(case["custom"])}
+            if case.get("subclassing") is False:
+                kw["rdf_subclassing"] = False
+            w = RDFWriter([odml.Document()], **kw)
             out = {"outcome": "ok", "map": sorted(w.section_subclasses.items()),
                    "default": sorted(default_subclasses().items())}
         except Exception as exc:
@@ -717,6 +836,40 @@ class C10(fw.Check):
             out.pop("after", None)
         return out
 
+    @staticmethod
+    def writer_kw(case):
+        """constructor arguments that give the configuration of the case (the switch as it is when the
+        export runs). (round 6) `custom_as`: the map as a dict / an OrderedDict; no map = argument left
+        out / None / an empty dict"""
+        kw = {"rdf_subclassing": case["subclassing"]}
+        how = case.get("custom_as")
+        if case["custom"]:
+            if how == "ordered":
+                import collections
+                kw["custom_subclasses"] = collections.OrderedDict(case["custom"].items())
+            else:
+                kw["custom_subclasses"] = dict(case["custom"])
+        elif how == "none":
+            kw["custom_subclasses"] = None
+        elif how == "empty":
+            kw["custom_subclasses"] = {}
+        return kw
+
+    @staticmethod
+    def mk_writer(what, case, kw):
+        """(round 6) a writer with the configuration `kw`; with `flag_set` it is created with another (or the
+        same) value of the switch, which is then set through the public attribute `rdf_subclassing`"""
+        from odml.tools.rdf_converter import RDFWriter
+        fs = case.get("flag_set")
+        if fs:
+            kw2 = dict(kw)
+            kw2["rdf_subclassing"] = fs["ctor"]
+            writer = RDFWriter(what, **kw2)
+            if hasattr(writer, "rdf_subclassing"):
+                writer.rdf_subclassing = kw["rdf_subclassing"]
+                return writer
+        return RDFWriter(what, **kw)
+
     def impl_rt(self, case):
         import warnings
         import rdflib
@@ -726,12 +879,13 @@ class C10(fw.Check):
         fmt = case["fmt"]
         docs = [build_doc(d) for d in case["docs"]]
         snap = [snap_doc(d) for d in docs]
-        kw = {"rdf_subclassing": case["subclassing"]}
-        if case["custom"]:
-            kw["custom_subclasses"] = dict(case["custom"])
+        kw = self.writer_kw(case)
         value_pred = str(ofmt.Property.rdf_map("value"))
         obs = {"docs": snap, "default": sorted(default_subclasses().items())}
-        graph = RDFWriter(docs, **kw).convert_to_rdf()
+
+        def mk_writer(what):
+            return self.mk_writer(what, case, kw)
+        graph = mk_writer(docs).convert_to_rdf()
         obs["graph"], _ = canon_graph(graph, value_pred)
         obs["shape"] = self.shape_facts(graph, docs, kw)
         tmp = None
@@ -741,7 +895,7 @@ class C10(fw.Check):
             if entry == "file":
                 tmp = tempfile.mkdtemp(prefix="c10_")
                 base = os.path.join(tmp, "out")
-                RDFWriter(docs, **kw).write_file(base, fmt)
+                mk_writer(docs).write_file(base, fmt)
                 path = base + EXT[fmt]
                 # newline="": the text as written (a lone \r in a literal is not a line end to translate)
                 with open(path, encoding="utf-8", newline="") as fh:
@@ -771,7 +925,7 @@ class C10(fw.Check):
                         odml.save(docs[0], base, "RDF", rdf_format=fmt)
                 obs["saved"] = saved
                 if not saved:
-                    RDFWriter(docs, **kw).write_file(base, fmt)
+                    mk_writer(docs).write_file(base, fmt)
                 found = []
                 for root, _dirs, files in os.walk(tmp):
                     found += [os.path.join(root, f) for f in files]
@@ -787,16 +941,16 @@ class C10(fw.Check):
                 text = ODMLWriter("RDF").to_string(docs[0], rdf_format=fmt)
             elif entry == "single":
                 # (round 2) a Document instead of a list of Documents
-                text = RDFWriter(docs[0], **kw).get_rdf_str(fmt)
+                text = mk_writer(docs[0]).get_rdf_str(fmt)
             elif entry == "reuse":
                 # one writer asked twice (another serialisation first): the second text must still
                 # import to the exported documents
-                writer = RDFWriter(docs, **kw)
+                writer = mk_writer(docs)
                 writer.get_rdf_str("nt" if fmt != "nt" else "xml")
                 text = writer.get_rdf_str(fmt)
                 obs["reused"] = True
             else:
-                text = RDFWriter(docs, **kw).get_rdf_str(fmt)
+                text = mk_writer(docs).get_rdf_str(fmt)
             parsed = rdflib.Graph().parse(data=text, format=fmt)
             obs["graph_parsed"], rename = canon_graph(parsed, value_pred)
             try:
@@ -991,9 +1145,7 @@ class C10(fw.Check):
         value_pred = str(ofmt.Property.rdf_map("value"))
         docs = [build_doc(d) for d in case["docs"]]
         nlinks = self.apply_links(docs, case.get("links", []))
-        kw = {"rdf_subclassing": case["subclassing"]}
-        if case["custom"]:
-            kw["custom_subclasses"] = dict(case["custom"])
+        kw = self.writer_kw(case)
         grow_only = case["kind"] == "grow"
         obs = {"links": nlinks, "steps": []}
         writer = RDFWriter(docs, **kw)
@@ -1019,6 +1171,14 @@ class C10(fw.Check):
                     so["edits"].append(r)
                     if r is True and exported:
                         changed = True
+                # (round 6) the switch of the live writer is set before this step
+                if step.get("set_flag") is not None and hasattr(writer, "rdf_subclassing"):
+                    if bool(writer.rdf_subclassing) != step["set_flag"] and exported:
+                        changed = True
+                    writer.rdf_subclassing = step["set_flag"]
+                    kw["rdf_subclassing"] = step["set_flag"]
+                    so["set_flag"] = step["set_flag"]
+                so["flag"] = kw["rdf_subclassing"]
                 # an earlier refused call must not matter
                 if step.get("refused") == "badfmt":
                     try:
@@ -1092,6 +1252,7 @@ class C10(fw.Check):
                 g = canon_triples_multi(parsed, value_pred)
                 so["untyped"] = sorted(i for i in now_ids
                                        if not list(parsed.objects(URIRef(NS + i), RDF.type)))[:5]
+                so["subclass_bad"] = self.subclass_facts(parsed, docs, kw)
                 try:
                     back = RDFReader().from_file(path, fmt) if path else RDFReader().from_string(text, fmt)
                     so["imported_raw"] = [self.raw_doc(d) for d in back]
@@ -1440,6 +1601,40 @@ class C10(fw.Check):
     def raw_doc(self, d):
         return {"id": str(d.id), "secs": [self.raw_sec(s) for s in d.sections]}
 
+    @staticmethod
+    def subclass_facts(graph, docs, kw):
+        """(round 6) the sub-class clause alone, read off a parsed export with rdflib only (for the
+        histories, where the switch of one writer changes between exports): every Section node has one
+        type; with the switch off it is odml:Section and no sub-class is declared; with it on it is
+        odml:Section or a class of the maps that is declared a sub-class of odml:Section"""
+        from rdflib import URIRef
+        from rdflib.namespace import RDF, RDFS
+        from odml import format as ofmt
+        bad = []
+        base = str(ofmt.Section.rdf_type)
+        flag = kw.get("rdf_subclassing", True)
+        names = set(default_subclasses().values()) | set((kw.get("custom_subclasses") or {}).values())
+        decl = sorted(str(s) for s in graph.subjects(RDFS.subClassOf, None))
+        if decl and not flag:
+            bad.append("sub-classing is switched off, the graph declares sub-classes: %s" % decl[:3])
+
+        def walk(sec):
+            types = sorted(str(t) for t in graph.objects(URIRef(NS + str(sec.id)), RDF.type))
+            if len(types) != 1:
+                bad.append("Section %s has %d types" % (sec.id, len(types)))
+            elif types[0] != base:
+                cls = types[0]
+                ok = flag and cls.startswith(NS) and cls[len(NS):] in names and \
+                    (URIRef(cls), RDFS.subClassOf, URIRef(base)) in graph
+                if not ok:
+                    bad.append("Section %s typed %s which is not a declared sub-class" % (sec.id, cls))
+            for c in sec.sections:
+                walk(c)
+        for d in docs:
+            for sec in d.sections:
+                walk(sec)
+        return bad[:5]
+
     def shape_facts(self, graph, docs, kw):
         """Graph-shape clauses of the property, read off the writer's graph with rdflib only."""
         from rdflib import URIRef, Literal
@@ -1456,6 +1651,14 @@ class C10(fw.Check):
         if want != got:
             bad.append("Hub links %d documents, expected %d" % (len(got), len(want)))
         sub_values = set(default_subclasses().values()) | set((kw.get("custom_subclasses") or {}).values())
+        # (round 6) with sub-classing switched off nothing is declared a sub-class, whatever map the writer
+        # holds; with it on a declared sub-class is a sub-class of odml:Section
+        decl = sorted((str(s), str(o)) for s, _p, o in graph.triples((None, RDFS.subClassOf, None)))
+        if decl and not kw.get("rdf_subclassing", True):
+            bad.append("sub-classing is switched off, the graph declares sub-classes: %s" % [d[0] for d in decl][:3])
+        for sub, sup in decl:
+            if sup != str(ofmt.Section.rdf_type):
+                bad.append("%s is declared a sub-class of %s, not of odml:Section" % (sub, sup))
 
         def check_attrs(obj, fmt_obj, node):
             for k in fmt_obj.rdf_map_keys:
@@ -1554,6 +1757,8 @@ class C10(fw.Check):
             return []
         if st == "format":
             return [{"op": "format", "fmt": case["fmt"], "formats": obs["formats"]}]
+        if st == "custom" and case.get("subclassing") is False:
+            return []
         if st == "custom":
             return [{"op": "export", "docs": [], "subclassing": True,
                      "default": [list(e) for e in obs["default"]],
@@ -1575,6 +1780,8 @@ class C10(fw.Check):
         if st == "format":
             if answers[0] != (obs["outcome"] == "ok"):
                 out.append("model accepts format=%s, implementation outcome=%s" % (answers[0], obs["outcome"]))
+            return out
+        if st == "custom" and not answers:
             return out
         if st == "custom":
             raised = "raised" in answers[0]
@@ -1724,6 +1931,8 @@ class C10(fw.Check):
                                  % (so["n_missing"], so["missing"]))
                 if so["untyped"]:
                     fails.append("objects without a typed node in the export: %s" % so["untyped"])
+                # (round 6) the sub-class clause under the value the switch has at this export
+                fails += ["graph shape: " + b for b in so.get("subclass_bad", [])]
                 if so["n_extra"]:
                     fails.append("the export has %d triples that are not of the current documents, e.g. %s"
                                  % (so["n_extra"], so["extra"]))
